@@ -1,4 +1,4 @@
-import Varpulis.Lemmas.SaseBounds
+import Varpulis.Lemmas.SaseStack
 /-!
 # C05 — pattern state stays within its documented bounds and never panics
 
@@ -72,6 +72,52 @@ theorem matches_per_completion_bounded (steps : List Step) (cfg : Cfg) (evs : Li
   rw [h] at h'; cases h'
   intro o ho g hg
   exact hout o ho g hg hr
+
+/-! ### the run's own stack (known finding `C05-trailing-all-uncapped`) -/
+
+/-- KNOWN finding: the full-strength statement "each partial match keeps at most `max_kleene_events` Kleene
+events" fails for a pattern that ends in `all`: no capture is created on that path and the cap is never consulted.
+With cap 1 the run of `A -> all B` holds A and three B events. -/
+theorem trailing_all_stack_counterexample :
+    let steps : List Step := [{ ty := 0, alias := some 0 }, { ty := 1, alias := some 1, kleene := true }]
+    let cfg : Cfg := { maxRuns := 4, lim := { maxEvents := 1, maxResults := 10 } }
+    let ev (i t : Nat) : Ev := { id := i, ty := t, x := none, y := none }
+    (runAll (compile steps) cfg {} [ev 0 0, ev 1 1, ev 2 1, ev 3 1]).map
+      (fun r => r.1.runs.map fun x => (x.stack.length, x.kc.isSome)) = some [(4, false)] := by
+  decide
+
+/-- partial statement, guard `NoTrailingAll` (decidable on the compiled automaton: no state has an epsilon edge
+to `Accept`, i.e. the pattern does not end in `all`): every stack entry is accounted for by a forward move of the
+automaton or by an event of the capture, so a run never holds more than `#states + max_kleene_events` entries. -/
+theorem stack_bounded_partial (steps : List Step) (cfg : Cfg) (evs : List Ev) (s : Eng) (outs : List Out)
+    (hm : 1 ≤ cfg.maxRuns) (hk : 1 ≤ cfg.lim.maxEvents) (hnt : NoTrailingAll (compile steps))
+    (h : runAll (compile steps) cfg {} evs = some (s, outs)) :
+    ∀ v ∈ s.runs :: s.parts.map (·.2), ∀ r ∈ v,
+      r.stack.length ≤ (compile steps).states.length + cfg.lim.maxEvents := by
+  obtain ⟨s', outs', h', hinv, _⟩ := runAll_ok _ cfg (SaseK.compile_wf steps) hm hk evs {} (engInv_init _ _)
+  rw [h] at h'; cases h'
+  have hst := runAll_stack _ cfg (compile_fwd steps) hnt evs {} s outs ⟨by simp, by simp⟩ h
+  intro v hv r hr
+  have hri : RunInv (compile steps) cfg.lim r ∧ StackInv r := by
+    rcases List.mem_cons.mp hv with rfl | hv
+    · exact ⟨hinv.1.2 r hr, hst.1 r hr⟩
+    · rcases List.mem_map.mp hv with ⟨p, hp, rfl⟩
+      exact ⟨(hinv.2 p hp).2 r hr, hst.2 p hp r hr⟩
+  have h1 := hri.1.1
+  have h2 := hri.2
+  simp only [StackInv, kcN] at h2
+  cases hkc : r.kc with
+  | none => simp only [hkc] at h2; omega
+  | some k =>
+    have := (hri.1.2 k hkc).2
+    simp only [hkc] at h2; omega
+
+/-- the guard is satisfiable: `A -> all B -> C` does not end in `all` -/
+example : NoTrailingAll (compile [{ ty := 0, alias := some 0 }, { ty := 1, alias := some 1, kleene := true, pred := some (.cmpRef 0 .gt 1 0) },
+                                  { ty := 2, alias := some 2 }]) := by
+  intro st hst
+  simp [compile, compileStep, Nfa.addState, Nfa.addTransition, Nfa.addEpsilon, Nfa.setAccept, modifyAt, List.modify, selfRef] at hst
+  rcases hst with rfl | rfl | rfl | rfl | rfl <;> rfl
 
 /-- non-vacuity: a stream on `A -> all B where x > b.x -> C` with `max_runs = 1`, eviction, caps 2 / 3
 reaches a state with a full run vector and a full capture, and enumerates up to the cap -/
